@@ -356,9 +356,13 @@ def view_validators(cx, T):
         if cls["kind"] == "dataclass":
             for f in plain[:2]:
                 runs.append((f"vf:{f['id']}", {f"§vf:{f['id']}": ("loc-validator-field", path + (cx.E(cls, f),), cls, f)}))
+        if len(runs) > 1:
+            # every validator failing at once: the field validators discard their field, the following ones run in the
+            # "after a discard" continuation of the validation and must report under the same names
+            runs.append(("+".join(t for t, _ in runs), {k: v for _, e in runs for k, v in e.items()}))
         for tag, exp in runs:
             fire.clear()
-            fire.add(tag)
+            fire.update(tag.split("+"))
             try:
                 o = call(deserialize, T, datum, **cx.kw)
             finally:
